@@ -132,8 +132,10 @@ def check(run):
         scns.append(long_run(rng, 640))
         scns.append(long_run(rng, 260, prefill={"count": 1890, "consumed": 1885}, throttle_at=[2000]))
         scns.append(stalled_run(1250, prefill={"count": 1890, "consumed": 1885}))
+        scns.append(stalled_run(1650, prefill={"count": 2450, "consumed": 2445}))
     else:
         scns.append(stalled_run(2150))
+        scns.append(stalled_run(1650, prefill={"count": 2450, "consumed": 2445}))
         scns.append(stalled_run(1250, prefill={"count": 1890, "consumed": 1885}))
         for _ in range(2):
             scns.append(long_run(rng, 3250, throttle_at=[2000, 3000]))
